@@ -2,7 +2,7 @@
 import checklib as cl
 
 NTT_SPECS = [dict(name="ntt", backend=b, sanitize=None, extra=(["-DMIN16=8", "-DMIN32=8"] if b != "serial" else []))
-             for b in ("serial", "sse", "avx2")]
+             for b in ("serial",) + cl.simd_backends()]
 
 
 def ntt_streams(ctx, res, ops, seeds=None, tier=None):
